@@ -394,6 +394,27 @@ def m_contains(ctx, args, callee):
     return lift_bool(ctx, lambda a, b: b in a, s, p)
 
 
+@model(r'^(core::)?str::<impl str>::(find|rfind)$')
+def m_str_find(ctx, args, callee):
+    """str::find / rfind with a char or &str pattern on a concrete subject: Option<byte offset>"""
+    s = as_str(ctx, args[0]); p = ctx.deref(args[1])
+    if isinstance(s, SpecialStr) or s.s is None:
+        raise Unmodelled('find on a symbolic string')
+    if is_bv(p):
+        pc = conc(p)
+        if pc is None:
+            raise Unmodelled('find(symbolic char)')
+        p = Str(chr(pc))
+    if isinstance(p, (FnItem, Closure, Agg, Seq)):
+        raise Unmodelled('find(closure / char set)')
+    p = as_str(ctx, p)
+    if p.s is None:
+        raise Unmodelled('find(symbolic pattern)')
+    b = s.s.encode('utf-8'); q = p.s.encode('utf-8')
+    i = b.rfind(q) if re.search(r'::rfind(::<.*>)?\s*$', callee, re.S) else b.find(q)
+    return none() if i < 0 else some(BitVecVal(i, 64))
+
+
 @model(r'^(core::)?str::<impl str>::to_lowercase$|^(core::)?str::<impl str>::to_ascii_lowercase$')
 def m_to_lower(ctx, args, callee):
     _s0 = as_str(ctx, args[0])
